@@ -9,9 +9,9 @@ cp "$OUT/seeded_demo.rs" tests/seeded_demo.rs
 W=$(timeout 900 cargo test --offline --test seeded_demo 2>&1 | grep -E "^test result" | tail -1)
 S=$(timeout 1500 cargo test --workspace --no-fail-fast --offline 2>&1 | grep -E "^test result" | awk '{p+=$4; f+=$6} END {print p" passed "f" failed"}')
 git diff -- src > /tmp/mut/$ID.confirm.diff
-git stash -q -- src
+git apply -R /tmp/mut/$ID.confirm.diff || exit 2
 WO=$(timeout 900 cargo test --offline --test seeded_demo 2>&1 | grep -E "^test result" | tail -1)
-git stash pop -q
+git apply /tmp/mut/$ID.confirm.diff || exit 2
 echo "with change:    $W"
 echo "suite w/ change (incl. demo): $S"
 echo "without change: $WO"
